@@ -67,6 +67,17 @@ def constructed(rng):
             for c in (0, 1, -1, -12345, M, -M):
                 for fl in FLAGNAMES:
                     out.append(req(fl, rng.choice((None, 3, 25, 60)), p, c, s))
+    # zero values under every flag set, with and without width / precision
+    for s in range(0, 19, 3):
+        for fl in FLAGNAMES:
+            for w in (None, 0, 1, 9):
+                for p in (None, 0, 2, 18):
+                    out.append(req(fl, w, p, 0, s))
+    # coefficients at the widths of the primitive types, every scale class
+    for c in G.type_boundary_coeffs():
+        for s in (1, 4, 18):
+            for p in (None, 0, max(0, s - 1), s + 2):
+                out.append(req(rng.choice(FLAGNAMES), rng.choice((None, 30)), p, c, s))
     # 2^127-1 with one fractional digit, zero-extended (must not overflow)
     for p in range(0, 41, 3):
         out.append(req("plus", 50, p, M, 1))
